@@ -324,6 +324,30 @@ func c10Rules(w *SrvWorld, rep *LifeReport, mk func(rule, sig, d string) *Violat
 			mk("recovered-panic", "recovered-panic/"+siteFunc(rc.Site), fmt.Sprintf("panic recovered at %s: %.1200s", rc.Site, rc.Value))
 		}
 	}
+	if T := w.plan.Srv.IdleTimeout; w.plan.Trail == "idle" && T > 0 && len(w.GoAways) > 0 && w.GoAways[0].Code == 0 {
+		// an idle shutdown says nothing has been asked of the connection for IdleTimeout. Every request the server has
+		// handed to a handler was sent no later than the server saw it, and seeing it restarts the idle period:
+		// the GOAWAY cannot arrive less than IdleTimeout after such a request was sent
+		// when the idle timer fired: the moment its callback began to run (the only AfterFunc of a connection here)
+		tf := time.Duration(-1)
+		for name, at := range w.sim.TimerStarts {
+			if strings.HasPrefix(name, "timer:serverConn.go") && (tf < 0 || at < tf) {
+				tf = at
+			}
+		}
+		for i, l := range w.lanes {
+			if tf < 0 || l.id == 0 || l.lane.Req == nil || w.Entries[i] == 0 {
+				continue
+			}
+			// the request was being handled (tE, no earlier than when its HEADERS were processed) strictly before the
+			// timer fired, and the timer fired less than IdleTimeout after the request had even been sent: the server
+			// had seen the request and did not restart the idle period
+			if tE, ok := w.EnterNow[i]; ok && tf > tE+time.Millisecond && tf-l.openedNow < T {
+				mk("idle-premature", "idle-premature", fmt.Sprintf("the idle timer fired %v after request %d (stream %d) was sent and %v after its handler had started; IdleTimeout is %v: the request did not restart the idle period", tf-l.openedNow, i, l.id, tf-tE, T))
+				break
+			}
+		}
+	}
 	committed := off != nil && off.sentAll && len(w.c2s.Inflight) == 0 && !w.offenceCut
 	if committed && off.lane.Offender == "headers-lower-id" && w.plan.Trail == "stall" {
 		// after this offence the server finishes the streams it has promised before it goes ("once the streams it
@@ -331,7 +355,24 @@ func c10Rules(w *SrvWorld, rep *LifeReport, mk func(rule, sig, d string) *Violat
 		committed = false
 	}
 	if committed || w.plan.Trail == "idle" {
-		if rep.StayedChecked && !rep.ReturnedWhilePeerStays {
+		backlogged := false
+		if w.plan.Trail == "stall" && len(w.GoAways) == 0 {
+			// a peer that has not been reading since before the offence: the write loop sits in Write, the stream loop
+			// waits for room in the full queue behind it and has not come to the offending frame yet, the read loop has
+			// handed everything over and waits for more. No connection error has been found, so nothing is owed yet
+			// (a server without write deadlines can be held like this by any peer, with or without an offence).
+			rd, sl := false, false
+			for _, g := range rep.LeftWhilePeerStays {
+				if strings.HasPrefix(g, "ServeConn @ ") && strings.Contains(g, "srv.Read") {
+					rd = true
+				}
+				if strings.Contains(g, "(serverConn.Serve)") && strings.Contains(g, "(serverConn.write)") {
+					sl = true
+				}
+			}
+			backlogged = rd && sl
+		}
+		if rep.StayedChecked && !rep.ReturnedWhilePeerStays && !backlogged {
 			offKind := "none"
 			if off != nil {
 				offKind = off.lane.Offender
